@@ -490,13 +490,30 @@ def crossing_facts(ctx, R="C07.crossing"):
     ei = ctx.fn("block:Block.is_excluded_or_inconsistent_combination")
     got = Facts(ei).cases()
     X_ = "self.is_excluded_combination(di)"
+    IMP_ = "not(any([di[f].window.predicate(*_b0) for _b0 in product(*[ite((_b0 in di), [di[_b0].name], [_b1.name for _b1 in _b0.levels]) for _b0 in di[f].window.factors])]))"
     want = [((X_,), "True"),
-            (("([] != self.crossings)", "(f in di)", "all([(_b0 in di) for _b0 in di[f].window.factors])", "isinstance(f, DerivedFactor)",
-              "not(di[f].window.predicate(*[di[_b0].name for _b0 in di[f].window.factors]))", "not(f.has_complex_window)", "not(%s)" % X_), "True"),
+            (("([] != self.crossings)", "(f in di)", "isinstance(f, DerivedFactor)", IMP_, "not(f.has_complex_window)", "not(%s)" % X_), "True"),
             (("([] != self.crossings)", "not(%s)" % X_), "False"), (("([] == self.crossings)", "not(%s)" % X_), "False")]
     ctx.check(same_cases(got, want) and Facts(ei).iters() == ["self.crossings[0]"], R, ei, "F5 inconsistent combination",
-              "F5: beyond exclusion, a combination is dropped iff a simple-window derived factor of the first crossing has all its sources in the combination and its predicate fails",
+              "F5: beyond exclusion, a combination is dropped iff a simple-window derived level in it is impossible: no choice of levels for its sources outside the combination satisfies its predicate",
               "is_excluded_or_inconsistent_combination decides differently: %s over %s" % (got, Facts(ei).iters()))
+    # the trial count subtracts the impossible combinations (__count_exclusions), the encoder / enumerator filter them
+    # (is_excluded_or_inconsistent_combination): both must treat a source factor outside the combination alike -- by trying all
+    # of its levels; a filter that only judges combinations holding every source keeps combinations the count has subtracted
+    cx = ctx.fn("cross_block:MultiCrossBlockRepeat.__count_exclusions")
+
+    def tries_all_levels(fn):
+        for n_ in ast.walk(fn.node):
+            if isinstance(n_, ast.ListComp) and len(n_.generators) == 1 and isinstance(n_.generators[0].iter, ast.Attribute) and n_.generators[0].iter.attr == "levels" and \
+                    isinstance(n_.elt, ast.Attribute) and n_.elt.attr == "name" and dotted(n_.elt.value) == dotted(n_.generators[0].target):
+                return True
+        return False
+    a_, b_ = tries_all_levels(cx), tries_all_levels(ei)
+    ctx.check(a_ == b_, R, ei, "F5 impossible combinations: count and filter agree (all levels of an absent source: %s / %s)" % (a_, b_),
+              "the trial count and the combination filter quantify over the levels of a source factor outside the combination in the same way",
+              "__count_exclusions %s every level of a source factor that is not in the crossing, is_excluded_or_inconsistent_combination %s: the trial count drops an impossible "
+              "combination that the encoder and the enumerator still require (IterateSATGen then finds no sequence, RandomGen fails its size assertion)" % (
+                  "tries" if a_ else "does not try", "does" if b_ else "does not"))
 
     # ---- the shared counter
     body = ast.unparse(cm.node)
